@@ -451,7 +451,7 @@ def m_form_method_cross(segs, rng):
     method, target, version = segs[0][1].split(" ", 2)
     other = [m for m in METHODS + ["TRACE", "PROPFIND", "connectx", "OPTION", "OPTIONSX"] if m.upper() not in ("OPTIONS", "CONNECT")]
     kind = rng.choice(["asterisk", "asterisk", "asterisk", "authority", "connect_origin", "connect_absolute",
-                       "connect_asterisk", "options_asterisk", "options_absolute"])
+                       "connect_asterisk", "options_asterisk", "options_absolute", "connect_bad_authority", "connect_bad_authority"])
     if kind == "asterisk":
         m = method if method.upper() not in ("OPTIONS", "CONNECT") and rng.random() < 0.6 else rng.choice(other)
         t = "*"
@@ -464,6 +464,9 @@ def m_form_method_cross(segs, rng):
         m, t = "CONNECT", rng.choice(ABS_TARGETS[:3])
     elif kind == "connect_asterisk":
         m, t = "CONNECT", "*"
+    elif kind == "connect_bad_authority":
+        # authority-form whose host or port is no host / no port (a parser that builds the URL lazily notices late)
+        m, t = "CONNECT", rng.choice(["h.test:b", "[::1]x:1", "h.test:999999", "h.test:-1", "h.test:80x", "[::1:80", "h.test:"])
     elif kind == "options_asterisk":
         m, t = rng.choice(["OPTIONS", "options"]), "*"
     else:
